@@ -49,6 +49,7 @@ var leanName = map[string]string{} // key recv+"."+name or name
 var impure = map[string]bool{}     // lean name -> returns Res
 var needsFuel = map[string]bool{}
 var aux []string // auxiliary loop definitions for the current function
+var deps = map[string][]string{} // lean name -> lean names it calls (definitions are emitted callee first)
 var stubs = map[string]string{} // lean name -> stub definition with the signature of the last good translation
 
 // translateError aborts the translation of ONE function (recovered in main): the function is then
@@ -254,6 +255,7 @@ func (c *fnCtx) expr(e ast.Expr, binds *[]string, intMode bool) string {
 		default:
 			fatal(x.Pos(), "unsupported call")
 		}
+		deps[c.name] = append(deps[c.name], callee)
 		call := callee
 		if needsFuel[callee] {
 			call += " fuel"
@@ -747,6 +749,7 @@ func main() {
 		leanName[filepath.Base(filepath.Dir(f.File))+"."+f.Name] = f.Lean
 	}
 	var defs []string
+	defByName := map[string]string{}
 	status := map[string]string{}
 	oldStubs := map[string]string{}
 	if b, err := os.ReadFile(os.Args[3] + ".stubs.json"); err == nil {
@@ -781,8 +784,40 @@ func main() {
 			}()
 			d := translate(os.Args[1], f)
 			status[f.Lean] = "ok"
-			defs = append(defs, d)
+			defByName[f.Lean] = d
+			defs = append(defs, "\x00"+f.Lean)
 		}()
+	}
+	// emit callee before caller whatever the order of funcs.json (a rewrite may introduce a call to a
+	// function that is listed later)
+	{
+		var ordered []string
+		emitted := map[string]bool{}
+		var visit func(name string, stack map[string]bool)
+		visit = func(name string, stack map[string]bool) {
+			if emitted[name] || stack[name] {
+				return
+			}
+			stack[name] = true
+			for _, d := range deps[name] {
+				if _, ok := defByName[d]; ok {
+					visit(d, stack)
+				}
+			}
+			emitted[name] = true
+			ordered = append(ordered, defByName[name])
+		}
+		var out []string
+		for _, d := range defs {
+			if strings.HasPrefix(d, "\x00") {
+				visit(d[1:], map[string]bool{})
+				out = append(out, ordered...)
+				ordered = nil
+			} else {
+				out = append(out, d)
+			}
+		}
+		defs = out
 	}
 	if sj, err := json.MarshalIndent(status, "", " "); err == nil {
 		os.WriteFile(os.Args[3]+".status.json", sj, 0o644)
